@@ -250,7 +250,7 @@ def rw_probe(ck, d, nbase):
                             continue
                         nv += 1
                         if nv <= 3:
-                            ck.violation("C10 premise fails on the real code: " + why, {"kind": "rw", "line": l, "op": op}, key={"kind": "rw", "op": op})
+                            ck.violation("C10 premise fails on the real code: " + why, {"kind": "rw", "sub": "write", "line": l, "slot": cell * NF + f, "op": op}, key={"kind": "rw", "op": op})
             continue
         cell, f = pert
         bo = base_out[(k, op)]
@@ -275,7 +275,7 @@ def rw_probe(ck, d, nbase):
                     ck.violation("C10 premise fails on the real code: the result of %s depends on field %d of %s cell, which is outside its declared read set%s"
                                  % (OPN[op], f, "its first" if cell == 0 else "its second",
                                     " (a field that operations of the same phase write)" if f in dec[op]["writes"] else ""),
-                                 {"kind": "rw", "line": l, "base_line": lines[[m[:3] for m in meta].index((k, op, None))], "op": op, "field": f},
+                                 {"kind": "rw", "sub": "dep", "line": l, "base_line": lines[[m[:3] for m in meta].index((k, op, None))], "op": op, "slot": cell * NF + f},
                                  key={"kind": "rw", "op": op})
     # accumulate form: result == fl(previous +/- contribution) bit for bit, contribution measured from zeroed accumulators
     lines2, meta2 = [], []
@@ -309,7 +309,8 @@ def rw_probe(ck, d, nbase):
                         nv += 1
                         if nv <= 3:
                             ck.violation("C10 premise fails on the real code: %s does not ADD to field %d: previous %r, contribution %r (from zeroed accumulators), result %r"
-                                         % (OPN[op], f, cin[f], oz[cell * NF + f], got), {"kind": "rw", "line": lines2[2 * j + 1], "op": op}, key={"kind": "rw", "op": op})
+                                         % (OPN[op], f, cin[f], oz[cell * NF + f], got),
+                                         {"kind": "rw", "sub": "add", "zero_line": lines2[2 * j], "line": lines2[2 * j + 1], "slot": cell * NF + f, "op": op}, key={"kind": "rw", "op": op})
                 if op in (0, 1):
                     for s in range(5):
                         lo, hi = cin[34 + 2 * s], cin[35 + 2 * s]
@@ -322,7 +323,7 @@ def rw_probe(ck, d, nbase):
                             nv += 1
                             if nv <= 3:
                                 ck.violation("C10 premise fails on the real code: %s does not take min/max into the limiter slots of variable %d" % (OPN[op], s),
-                                             {"kind": "rw", "line": lines2[2 * j + 1], "op": op}, key={"kind": "rw", "op": op})
+                                             {"kind": "rw", "sub": "minmax", "zero_line": lines2[2 * j], "line": lines2[2 * j + 1], "slot": cell * NF + 34 + 2 * s, "op": op}, key={"kind": "rw", "op": op})
     st["violations"] = nv
     st["observed"] = {OPN[op]: {"reads": sorted(obs_r[op]), "writes": sorted(obs_w[op]),
                                 "declared_never_observed_reads": sorted(dec[op]["reads"] - obs_r[op]),
@@ -360,24 +361,34 @@ def swap_oracle(ck, d, n):
         return st
     nv = 0
     for k, (cells, o1, o2) in enumerate(meta):
-        a = [bd(x) for x in out[2 * k].split()]
-        b_ = [bd(x) for x in out[2 * k + 1].split()]
-        for f in range(3 * NF):
-            x, y = a[f], b_[f]
-            if x == y or (x != x and y != y):
-                continue
-            fld = f % NF
-            grp = range(10, 15) if 10 <= fld < 15 else (range(15, 30) if 15 <= fld < 30 else range(fld, fld + 1))
-            sc = max(max(abs(a[(f // NF) * NF + g]), abs(cells[f // NF][g])) for g in grp) or 1e-300
-            dd = abs(x - y) / sc
-            st["max_rel_diff"] = max(st["max_rel_diff"], dd if dd == dd else float("inf"))
-            if not dd <= 1e-10:
-                nv += 1
-                if nv <= 2:
-                    ck.violation("C10 fails on the real code: two operations sharing a cell give different results in the two orders: %r then %r -> field %d of cell %d = %r; other order -> %r"
-                                 % (o1, o2, fld, f // NF, x, y), {"kind": "swap", "lines": lines[2 * k:2 * k + 2]}, key={"kind": "swap"})
-                break
+        worst, where = swap_compare(lines[2 * k], out[2 * k], out[2 * k + 1])
+        st["max_rel_diff"] = max(st["max_rel_diff"], worst)
+        if not worst <= 1e-10:
+            nv += 1
+            if nv <= 2:
+                ck.violation("C10 fails on the real code: two operations sharing a cell give different results in the two orders: %r then %r -> field %d of cell %d = %r; other order -> %r"
+                             % ((o1, o2) + where), {"kind": "swap", "lines": lines[2 * k:2 * k + 2]}, key={"kind": "swap"})
     return st
+
+
+def swap_compare(line, outa, outb):
+    """largest difference between the two results relative to the scale of the field group; (worst, (field, cell, x, y))"""
+    grp_in = [[bd(x) for x in g.split()] for g in line.split(";")[1:4]]
+    a = [bd(x) for x in outa.split()]
+    b_ = [bd(x) for x in outb.split()]
+    worst, where = 0.0, (0, 0, 0.0, 0.0)
+    for f in range(min(len(a), len(b_))):
+        x, y = a[f], b_[f]
+        if x == y or (x != x and y != y):
+            continue
+        fld = f % NF
+        grp = range(10, 15) if 10 <= fld < 15 else (range(15, 30) if 15 <= fld < 30 else range(fld, fld + 1))
+        sc = max(max(abs(a[(f // NF) * NF + g]), abs(grp_in[f // NF][g])) for g in grp) or 1e-300
+        dd = abs(x - y) / sc
+        dd = dd if dd == dd else float("inf")
+        if dd > worst:
+            worst, where = dd, (fld, f // NF, x, y)
+    return worst, where
 
 
 # ---------------------------------------------------------------------------------------------------------------
@@ -457,15 +468,41 @@ def replay(ck, rp):
         return c04.replay(ck, rp)
     if kind in ("rw", "swap"):
         c04.build(ck, d, want=("cells",))
-        ls = r.get("lines") or [x for x in (r.get("base_line"), r.get("line")) if x]
-        rc, out = vf.run_lines([os.path.join(d, "cellops")], "\n".join(ls) + "\n")
-        for l, o in zip(ls, out):
-            print(l.split(";")[-1].strip(), "->", o[:400])
-        if len(out) == 2:
+        run1 = lambda ls: vf.run_lines([os.path.join(d, "cellops")], "\n".join(ls) + "\n")[1]
+        if kind == "swap":
+            out = run1(r["lines"])
+            worst, where = swap_compare(r["lines"][0], out[0], out[1])
+            print("REPLAY: the two orders differ by %.3g of the field scale (field %d of cell %d: %r vs %r)" % ((worst,) + where))
+            return 1 if not worst <= 1e-10 else 0
+        sub, slot = r.get("sub"), r.get("slot")
+        if sub == "dep":
+            out = run1([r["base_line"], r["line"]])
             a, b = out[0].split(), out[1].split()
-            df = [k for k in range(len(a)) if a[k] != b[k]]
-            print("REPLAY: outputs differ in fields", df[:20])
+            dec = declared_sets(d) if os.path.exists(model10(d)) else {}
+            df = [k for k in range(len(a)) if a[k] != b[k] and k != slot]
+            print("REPLAY: perturbing input slot %d changes output slots %s" % (slot, df[:20]))
             return 1 if df else 0
+        if sub == "write":
+            out = run1([r["line"]])
+            inp = [x for g in r["line"].split(";")[1:3] for x in g.split()]
+            o = out[0].split()
+            print("REPLAY: slot %d: input %s output %s" % (slot, inp[slot], o[slot]))
+            return 1 if inp[slot] != o[slot] else 0
+        if sub in ("add", "minmax"):
+            out = run1([r["zero_line"], r["line"]])
+            inp = [bd(x) for g in r["line"].split(";")[1:3] for x in g.split()]
+            z, g = [bd(x) for x in out[0].split()], [bd(x) for x in out[1].split()]
+            if sub == "add":
+                want = inp[slot] + z[slot]
+                bad = vf.dbl_bits(want) != vf.dbl_bits(g[slot]) and not (want == 0.0 and g[slot] == 0.0) and not (want != want and g[slot] != g[slot])
+                # a gradient component off the face's axis must stay untouched instead
+                if bad and 15 <= slot % NF < 30 and vf.dbl_bits(inp[slot]) == vf.dbl_bits(g[slot]):
+                    bad = False
+            else:
+                want = z[slot] if z[slot] < inp[slot] else inp[slot]
+                bad = vf.dbl_bits(want) != vf.dbl_bits(g[slot])
+            print("REPLAY: slot %d previous %r contribution %r result %r expected %r" % (slot, inp[slot], z[slot], g[slot], want))
+            return 1 if bad else 0
         return 1
     print("REPLAY: nothing to replay (broken proof / correspondence without a failing input): %s" % json.dumps(r)[:2000])
     return 1
